@@ -161,7 +161,7 @@ class Crate:
 
 
 def _load_file(f):
-    pk = f + ".pickle7"
+    pk = f + ".pickle8"
     if os.path.exists(pk) and os.path.getmtime(pk) >= os.path.getmtime(f):
         try:
             return pickle.load(open(pk, "rb"))
